@@ -286,6 +286,8 @@ def oracleC16 (c : TCase) : Verdict :=
         -- the part of the head after the last added line still holds all original lines it had to hold
         let afterAdded := addedLines.foldl (fun (rest : List Bytes) a => (rest.dropWhile (· != a)).drop 1) lines
         let origKept := origLines.filter fun l => lines.contains l
-        if isSubseqOf origKept afterAdded || addedLines.isEmpty then .ok
+        -- (their order among themselves is not the property's business: a framing line the library derives may
+        -- read exactly like an inherited one and sits where the library puts it)
+        if origKept.all (afterAdded.contains ·) || addedLines.isEmpty then .ok
         else .fail "an original header is emitted ahead of a caller-added one"
     | none => .ok
